@@ -428,6 +428,23 @@ Section SetGen.
     | Err => Err
     | Panic => Panic
     end.
+
+  (* IOArg.Set(result, inputs) with a caller-supplied destination.  [prev] is
+     the content of *result before the call (None: result == nil).
+         if result == nil { result = new(big.Int) } else { result.SetInt64(0) }
+     both branches leave the value 0 in the destination before io.set runs. *)
+  Definition set_dest (prev : option Z) : Z :=
+    match prev with
+    | None => 0          (* new(big.Int) *)
+    | Some _ => 0        (* result.SetInt64(0) *)
+    end.
+
+  Definition set_into_gen (prev : option Z) (io : ioarg) (inputs : list gin) : res Z :=
+    match set_at io (set_dest prev) inputs 0%nat with
+    | Ok (r, _) => Ok r
+    | Err => Err
+    | Panic => Panic
+    end.
 End SetGen.
 
 (* ------------------------------------------------------------------ *)
@@ -788,6 +805,7 @@ Definition result_tint_now := result_tint_fixed.     (* before 8d9a986: result_t
 Definition bit_len_now := bit_len_fixed.             (* before a0b0be5: bit_len_old *)
 
 Definition set := set_gen set_int_now.
+Definition set_into := set_into_gen set_int_now.
 Definition sizes := sizes_gen bit_len_now.
 Definition result := result_gen result_tint_now.
 
